@@ -44,7 +44,8 @@
 static inline void _mzd_combine(word *c, word const *t1, wi_t wide_in) {
   wi_t wide = wide_in;
 #if __M4RI_HAVE_SSE2
-  /* assuming c, t1 are alligned the same way */
+  /* c is brought to a 16-byte boundary below; t1 need not have the same phase (e.g. one of the two
+     is a row of a window that starts at an odd word), so it is read with unaligned loads */
 
   if (__M4RI_ALIGNMENT(c, 16) == 8 && wide) {
     *c++ ^= *t1++;
@@ -57,14 +58,14 @@ static inline void _mzd_combine(word *c, word const *t1, wi_t wide_in) {
   __m128i xmm1;
 
   while (__c < eof - 1) {
-    xmm1   = _mm_xor_si128(*__c, *__t1++);
+    xmm1   = _mm_xor_si128(*__c, _mm_loadu_si128(__t1++));
     *__c++ = xmm1;
-    xmm1   = _mm_xor_si128(*__c, *__t1++);
+    xmm1   = _mm_xor_si128(*__c, _mm_loadu_si128(__t1++));
     *__c++ = xmm1;
   }
 
   if (__c < eof) {
-    xmm1   = _mm_xor_si128(*__c, *__t1++);
+    xmm1   = _mm_xor_si128(*__c, _mm_loadu_si128(__t1++));
     *__c++ = xmm1;
   }
 
